@@ -28,7 +28,7 @@ std::string hex(const std::string & s) {
 
 // ------------------------------------------------------------------ AST of a generated file
 struct Sel { bool all = false; size_t i = 0; };
-struct Val { std::string txt; double v; };
+struct Val { std::string txt; double v; std::string exact = ""; };   // exact: the rational the generator meant ("n/d"), when it knows it without parsing
 struct Stmt {
     char tbl = 'T';          // T, R, O
     Sel a, d1, d3;
@@ -48,9 +48,9 @@ struct File {
 };
 
 // targeted mutation applied while rendering
-struct Mut { std::string cls = ""; long target = -1; int arg = 0; };
+struct Mut { std::string cls = ""; long target = -1; int arg = 0; bool decoy = true; };
 
-Val mkVal(const std::string & t) { return Val{t, std::strtod(t.c_str(), nullptr)}; }
+Val mkVal(const std::string & t) { return Val{t, std::strtod(t.c_str(), nullptr), ""}; }
 
 // exact decimal text of k/16 in assorted spellings
 Val dyadic16(Rng & r, long k) {
@@ -65,7 +65,8 @@ Val dyadic16(Rng & r, long k) {
     if (style == 6) s += "e0";
     if (style == 7 && k >= 0 && r.coin(1, 3)) { std::snprintf(buf, sizeof buf, r.coin() ? "0x%lxp-4" : "0X%lX.0P-4", (unsigned long)k); s = buf; }  // hexadecimal float, exact
     if (s.empty() || s == "+" || s == "-") s = "0";
-    return mkVal(s);
+    Val out = mkVal(s); out.exact = std::to_string(k) + "/16";
+    return out;
 }
 
 std::vector<Val> dist(Rng & r, size_t n, bool ugly) {
@@ -96,8 +97,10 @@ std::vector<Val> anyrow(Rng & r, size_t n) {
 Val reward(Rng & r) {
     static const std::vector<const char*> ugly = {"-1.0", "5.2", "0.1", "-0.3", "1e1", "-2.5e0", "100", "-7", "3.75", "0", "-0.0", "12.125"};
     if (r.coin(1, 3)) return mkVal(r.pick(ugly));
-    char buf[32]; std::snprintf(buf, sizeof buf, "%.2f", (double)r.range(-40, 40) / 4.0);
-    return mkVal(buf);
+    long n4 = r.range(-40, 40);
+    char buf[32]; std::snprintf(buf, sizeof buf, "%.2f", (double)n4 / 4.0);
+    Val out = mkVal(buf); out.exact = std::to_string(n4) + "/4";
+    return out;
 }
 
 Sel selOf(Rng & r, size_t n, unsigned starNum = 1, unsigned starDen = 4) {
@@ -259,7 +262,7 @@ struct Renderer {
             if (!plain && r.coin(1, 5)) pre.push_back("discount: 0.25");      // overridden by the later line
             pre.push_back("discount" + std::string(r.coin() ? ": " : " : ") + f.disc.txt);
         }
-        if (mut.cls == "unknown_name" && mut.arg % 7 >= 5) {
+        if (mut.cls == "unknown_name" && mut.arg % 7 >= 5 && mut.decoy) {
             // names of an overridden declaration are gone: the later line replaces the whole map
             auto stale = [&](const char * kw, size_t n) { std::string l = std::string(kw) + ":"; for (size_t i = 0; i < n; ++i) l += " stale" + std::to_string(i); pre.push_back(l); };
             stale("states", f.S); stale("actions", f.A); if (f.pomdp || f.declareO) stale("observations", f.O);
@@ -317,6 +320,11 @@ void emitStmts(Line & L, const File & f) {
         else if (s.form == 0) { L << selTok(s.d1) << "e" << selTok(s.d3) << s.v.v; }
         else { L << selTok(s.d1) << "r" << s.vs.size(); for (auto & v : s.vs) L << v.v; }
     }
+    // every value token with the rational the generator meant: checked EXACTLY (no rounding) against the model's reading of the literal
+    std::vector<const Val*> vals;
+    for (auto & s : f.stmts) { if (s.form == 0) vals.push_back(&s.v); for (auto & v : s.vs) vals.push_back(&v); for (auto & row : s.rows) for (auto & v : row) vals.push_back(&v); }
+    L << "vals" << vals.size();
+    for (auto v : vals) { L << hex(v->txt) << (v->exact.empty() ? std::string("-") : v->exact) << v->v; }
 }
 
 // ASan aborts on an allocation it cannot serve instead of letting `new` throw (a property of the sanitizer
@@ -387,6 +395,32 @@ void runText(bool pomdp, const std::string & text, const std::function<void(Line
         }
         std::puts("#stat model_constructed 1");
     } catch (const std::exception & e) { L << "cerr" << errClass(e); }
+    L.emit();
+}
+
+// one parse on a given parser OBJECT, printed in the outcome format of the protocol
+void emitParse(Line & L, AIToolbox::CassandraParser & p, bool pomdp, const std::string & text) {
+    try {
+        std::istringstream is(text);
+        if (pomdp) {
+            const auto [S, A, O, T, R, W, d] = p.parsePOMDP(is);
+            L << "ok" << S << A << O << d; dump(L, T, S, A, S); dump(L, R, S, A, S); dump(L, W, S, A, O);
+        } else {
+            const auto [S, A, T, R, d] = p.parseMDP(is);
+            L << "ok" << S << A << (size_t)0 << d; dump(L, T, S, A, S); dump(L, R, S, A, S); L << (size_t)0;
+        }
+    } catch (const std::exception & e) { L << "err" << errClass(e); }
+}
+
+// REUSE of a parser object: text A is parsed first (outcome ignored), then text B on the same object; printed next to
+// the outcome of B on a fresh object.  Nothing of A may survive.
+void runReuse(bool pomdpA, const std::string & textA, bool pomdpB, const std::string & textB) {
+    if (hugeSizes(textA) || hugeSizes(textB)) { std::puts("#stat screened_huge_sizes 1"); return; }
+    Line L; L << "C18" << "reuse" << (pomdpB ? "pomdp" : "mdp") << hex(textA) << hex(textB) << "|";
+    { AIToolbox::CassandraParser fresh; emitParse(L, fresh, pomdpB, textB); }
+    AIToolbox::CassandraParser p;
+    try { std::istringstream is(textA); if (pomdpA) p.parsePOMDP(is); else p.parseMDP(is); } catch (const std::exception &) {}
+    emitParse(L, p, pomdpB, textB);
     L.emit();
 }
 
@@ -526,6 +560,24 @@ void verif_case(Rng & rng, long idx, const std::string &) {
         std::printf("#stat mutant_%s 1\n", m.cls.c_str());
         // unknown-name mutants on a `*`-free position only make sense when the replaced token was an index
         runText(f.pomdp, text, REJ(m.cls));
+    } else if (stream == 11) {                         // reuse of one parser object over two texts
+        File a = genFile(rng, true, false);
+        // A always declares names, the ones a stale table would still resolve
+        a.sn.clear(); for (size_t i = 0; i < a.S; ++i) a.sn.push_back("stale" + std::to_string(i));
+        a.an.clear(); for (size_t i = 0; i < a.A; ++i) a.an.push_back("stale" + std::to_string(i));
+        if (a.pomdp) { a.on.clear(); for (size_t i = 0; i < a.O; ++i) a.on.push_back("stale" + std::to_string(i)); }
+        Renderer RA{rng, a, Mut{}, true};
+        std::string textA = RA.render();
+        File b = genFile(rng, true, false);
+        Mut m;
+        int mode = (int)rng.below(4);
+        if (mode == 3) { m.cls = "missing_sizes"; m.arg = (int)rng.below(3); }             // B lacks a size line: the size of A must not be inherited
+        if (mode == 0) { b.sn.clear(); b.an.clear(); b.on.clear(); }                       // B declares numbers only
+        if (mode <= 1 && !b.stmts.empty()) { m.cls = "unknown_name"; m.arg = 5 + 7 * (int)rng.below(50); m.decoy = false; m.target = (long)rng.below(b.stmts.size()); } // B uses a name of A
+        Renderer RB{rng, b, m, rng.coin()};
+        std::string textB = RB.render();
+        std::printf("#stat reuse_mode%d 1\n", mode);
+        runReuse(a.pomdp, textA, rng.coin(4, 5) ? b.pomdp : false, textB);
     } else if (stream == 12) {                         // garbage: no structure at all, long lines, arbitrary bytes (memory clause)
         std::string text;
         static const std::string al = "TOR:* \n\t0123456789.-+eabcstdisvluonx#";
